@@ -181,6 +181,111 @@ theorem arrayMessage_eq (m : Msg) (sep : Byte) :
   · simp only [Bool.not_true, Bool.false_eq_true, if_false]
     exact argsLoop_eq sep _ m [] 0
 
+/- ---------------------------------------------------------------- mpt_dispatch_hash, mpt_stream_append -/
+
+theorem scan_found_lt {σ : Type} (step : σ → Byte → Option σ) (st : σ) (l : List Byte) (i : Nat)
+    (h : Flat.scan step st l = .found i) : i < l.length := by
+  induction l generalizing st i with
+  | nil => simp [Flat.scan] at h
+  | cons c cs ih =>
+    simp only [Flat.scan] at h
+    cases hst : step st c with
+    | none => rw [hst] at h; simp only [] at h; cases h; simp
+    | some s' =>
+      rw [hst] at h
+      simp only [] at h
+      cases hr : Flat.scan step s' cs with
+      | found j => rw [hr] at h; simp only [] at h; cases h; have := ih s' j hr; simp; omega
+      | more t => rw [hr] at h; simp only [] at h; cases h
+
+theorem argv_le (d : List Byte) (sep : Byte) (len : Nat) (d' : List Byte) (h : Flat.argv d sep = some (len, d')) :
+    len ≤ d'.length := by
+  have hn : ∀ (x : List Byte) (c : Byte), Flat.nextChar x c ≤ x.length := by
+    intro x c
+    unfold Flat.nextChar Flat.find
+    cases hf : x.findIdx? (· == c) with
+    | none => simp
+    | some i => simpa using Nat.le_of_lt (findIdx?_lt hf)
+  unfold Flat.argv at h
+  split at h
+  · simp at h
+  · split at h
+    · simp at h; rw [← h.1, ← h.2]; exact hn _ _
+    · simp only [] at h
+      split at h
+      · cases ht : Flat.tok (Flat.trimFlat d) Flat.wsTok with
+        | some p =>
+          rw [ht] at h; simp at h; rw [← h.1, ← h.2]
+          unfold Flat.tok at ht
+          cases hs : Flat.scan (Flat.tokStep Flat.wsTok) {} (Flat.trimFlat d) with
+          | found i =>
+            rw [hs] at ht; cases ht
+            exact Nat.le_of_lt (scan_found_lt _ _ _ _ hs)
+          | more t => rw [hs] at ht; cases ht
+        | none => rw [ht] at h; simp at h; rw [← h.1, ← h.2]; exact hn _ _
+      · simp at h; rw [← h.1, ← h.2]; exact hn _ _
+
+theorem dhash_eq (m : Msg) : m.dhash = .ok (Flat.dhash m.flat) := by
+  unfold Msg.dhash
+  have hr := readLoop_eq m.base m.cont 2 0 []
+  have hout : (m.read 2).out = m.flat.take 2 := by simpa [Msg.read, Msg.flat] using hr.1
+  have hflat : (m.read 2).msg.flat = m.flat.drop 2 := hr.2.1
+  have htot : (m.read 2).total = min 2 m.flat.length := by simpa [Msg.read, Msg.flat] using hr.2.2
+  simp only [htot, hout]
+  cases hd : m.flat with
+  | nil => first | done | simp [Flat.dhash]
+  | cons ty r1 =>
+    cases r1 with
+    | nil => first | done | simp [Flat.dhash]
+    | cons arg payload =>
+      have h2 : ¬ min 2 (ty :: arg :: payload).length < 2 := by simp
+      simp only [h2, if_false, List.take, List.headD_cons, List.drop, List.head?_cons, Option.getD_some]
+      simp only [Flat.dhash]
+      rw [hd] at hflat
+      simp only [List.drop] at hflat
+      have hav := argv_eq (m.read 2).msg (if (ty == 4) = true then arg else 0)
+      unfold argvAgrees at hav
+      rw [hflat] at hav
+      cases hm : (m.read 2).msg.argv (if (ty == 4) = true then arg else 0) with
+      | mk m1 res =>
+      rw [hm] at hav
+      cases ha : Flat.argv payload (if (ty == 4) = true then arg else 0) with
+      | none =>
+        rw [ha] at hav
+        simp only [] at hav
+        simp [hav.1]
+      | some pr =>
+        obtain ⟨len, d'⟩ := pr
+        rw [ha] at hav
+        simp only [] at hav
+        obtain ⟨hres, hfl⟩ := hav
+        subst hres
+        simp only []
+        by_cases hz : len = 0
+        · simp [hz]
+        · simp only [hz, if_false]
+          have hle := argv_le _ _ _ _ ha
+          -- the word read either way is the first `len` bytes of the content
+          have hword : (if m1.base.length ≥ len then m1.base.take len else (m1.read len).out) = d'.take len := by
+            rw [← hfl]
+            split
+            · rename_i hb
+              simp [Msg.flat, List.take_append, Nat.sub_eq_zero_of_le hb]
+            · exact (read_eq m1 len).1
+          rw [hword]
+
+theorem sappendLoop_eq (fs : List Frag) (cur : List Byte) (done : List (List Byte)) (total : Nat) :
+    Msg.sappendLoop fs cur done total = (total + fs.flatten.length, cur ++ fs.flatten, done) := by
+  induction fs generalizing cur total with
+  | nil => simp [Msg.sappendLoop]
+  | cons f fs ih =>
+    unfold Msg.sappendLoop
+    split
+    · rw [ih]; simp; omega
+    · rename_i h
+      have : f = [] := List.eq_nil_of_length_eq_zero (by omega)
+      rw [ih]; simp [this]
+
 /- the contiguous loop always terminates within its fuel -/
 
 theorem trimFlat_length (d : List Byte) : (trimFlat d).length ≤ d.length := by
